@@ -252,7 +252,10 @@ def make_value(owner, cname, attr, seed, ent):
     return None, None
 
 
-def build_owner(ws, owner, cname, geom):
+INT_AT_CREATION = {"rotation": 30, "dip": 45, "cost": 7, "end_of_hole": 120}
+
+
+def build_owner(ws, owner, cname, geom, extra=None):
     """Create a stored entity of the requested class; returns (entity, target) where target is the object whose
     attribute is assigned (the entity itself, its type, or the workspace)."""
     from geoh5py.groups import ContainerGroup
@@ -262,7 +265,9 @@ def build_owner(ws, owner, cname, geom):
         return None, ws
     if owner in ("object", "objtype"):
         cls = F.get_class(cname)
-        ent = cls.create(ws, name="target", **F.object_kwargs(cname, geom))
+        kwargs = F.object_kwargs(cname, geom)
+        kwargs.update(extra or {})
+        ent = cls.create(ws, name="target", **kwargs)
         # a sibling of the same class makes lost/misrouted writes visible
         return ent, (ent.entity_type if owner == "objtype" else ent)
     if owner in ("group", "grouptype"):
